@@ -6,6 +6,8 @@ L(R) <= L(B) is decided on the product of the two reference DFAs (unbounded word
 L(R) minus L(B) is then replayed against the implementation, and a violation is reported only when the
 implementation itself validates that child sequence for the derived type and rejects it for the base type.
 """
+import os
+
 from xmlschema import XMLSchema10, XMLSchema11
 from xmlschema.validators.exceptions import XMLSchemaParseError, XMLSchemaModelError
 
@@ -54,11 +56,19 @@ def shards(tier, seed):
     for k in range(len(seqcho_bases())):
         for version in ('1.0', '1.1'):
             out.append((tier, seed, 'SEQCHO', k, None, version))
+    for form in REDEF_FORMS:
+        for name, n, occs, maxdev in REDEF_SPACES:
+            for si, kinds in M.shard_keys(n):
+                for version in ('1.0', '1.1'):
+                    out.append((tier, seed, 'REDEF:%s:%s' % (form, name), si, kinds, version))
     for fam in FACETS:
         n = len(facet_sets(fam, 2 if tier == 'thorough' else 1))
         for lo in range(0, n, 8):
             for version in ('1.0', '1.1'):
                 out.append((tier, seed, 'FACET:' + fam, lo, None, version))
+    only = os.environ.get('C14_ONLY')        # developer aid: restrict a run to one family (never used by MANIFEST commands)
+    if only:
+        out = [x for x in out if x[2].startswith(only)]
     return out
 
 
@@ -151,6 +161,8 @@ def run_shard(shard, acc):
         return
     if name == 'ATTR':
         return run_attr_shard(tier, version, acc)
+    if name.startswith('REDEF:'):
+        return run_redef_shard(shard, acc)
     if name.startswith('FACET:'):
         return run_facet_shard(tier, version, name[6:], si, acc)
     spec = [s for s in spaces(tier) if s[0] == name][0]
@@ -196,6 +208,152 @@ def run_shard(shard, acc):
                 if len(batch) >= PACK:
                     flush()
     flush()
+
+
+# --- redefinitions by restriction ---------------------------------------------------------------------
+# The same (base, single edit) pairs, declared through xs:redefine: c.xsd holds the base component, a.xsd redefines
+# it by the derived one.  Forms: a complex type restricting itself, a named group replaced by another group (which
+# must be a valid restriction of the original when it does not refer to itself), and the two-step chains
+# a.xsd -> b.xsd -> c.xsd in which the FIRST step carries the edit and the second repeats the derived component
+# unchanged (a valid restriction of itself), so that an unchecked middle step becomes visible.
+REDEF_FORMS = ('type', 'group', 'type-chain', 'group-chain')
+REDEF_SPACES = [('M2-O8', 2, M.O8, None), ('M3-O5-D1', 3, M.O5, 1)]
+REDEF_SLICES = 4          # quick explores M2-O8 completely and one seed-selected quarter of M3-O5-D1
+REDEF_HEAD = ('<xs:schema xmlns:xs="http://www.w3.org/2001/XMLSchema" targetNamespace="urn:t" xmlns:t="urn:t" '
+              'elementFormDefault="qualified">\n')
+
+
+def _redef_dir():
+    import os
+    import tempfile
+    d = os.path.join(tempfile.gettempdir(), 'c14_redef_%d' % os.getpid())
+    os.makedirs(d, exist_ok=True)
+    return d
+
+
+def _redef_cleanup():
+    import shutil
+    shutil.rmtree(_redef_dir(), ignore_errors=True)
+
+
+def redef_texts(form, pairs):
+    """{file name: text} for a pack of (base, derived) pairs; the top document is a.xsd, the original c.xsd."""
+    grp = form.startswith('group')
+    orig, step = [], []
+    for i, (b, r) in enumerate(pairs):
+        if grp:
+            orig.append('<xs:group name="G%d"><xs:sequence>%s</xs:sequence></xs:group>\n'
+                        '<xs:element name="e%d"><xs:complexType><xs:group ref="t:G%d"/></xs:complexType></xs:element>\n'
+                        % (i, M.render(b, M.leaf_xsd), i, i))
+            step.append('<xs:group name="G%d"><xs:sequence>%s</xs:sequence></xs:group>\n' % (i, M.render(r, M.leaf_xsd)))
+        else:
+            orig.append('<xs:complexType name="T%d">%s</xs:complexType>\n<xs:element name="e%d" type="t:T%d"/>\n'
+                        % (i, M.render(b, M.leaf_xsd), i, i))
+            step.append('<xs:complexType name="T%d"><xs:complexContent><xs:restriction base="t:T%d">%s</xs:restriction>'
+                        '</xs:complexContent></xs:complexType>\n' % (i, i, M.render(r, M.leaf_xsd)))
+    files = {'c.xsd': M.SCHEMA_HEAD + ''.join(orig) + M.SCHEMA_TAIL}
+    if form.endswith('chain'):
+        files['b.xsd'] = REDEF_HEAD + '<xs:redefine schemaLocation="c.xsd">\n' + ''.join(step) + '</xs:redefine>\n' + M.SCHEMA_TAIL
+        files['a.xsd'] = REDEF_HEAD + '<xs:redefine schemaLocation="b.xsd">\n' + ''.join(step) + '</xs:redefine>\n' + M.SCHEMA_TAIL
+    else:
+        files['a.xsd'] = REDEF_HEAD + '<xs:redefine schemaLocation="c.xsd">\n' + ''.join(step) + '</xs:redefine>\n' + M.SCHEMA_TAIL
+    return files
+
+
+def build_redef(version, form, pairs):
+    """Lax builds of the redefining document and of the original alone.  Returns (schema, base schema, status list)."""
+    import os
+    d = _redef_dir()
+    for fn, text in redef_texts(form, pairs).items():
+        with open(os.path.join(d, fn), 'w') as f:
+            f.write(text)
+    base_schema = VERSIONS[version](os.path.join(d, 'c.xsd'), validation='lax')
+    schema = VERSIONS[version](os.path.join(d, 'a.xsd'), validation='lax')
+    grp = form.startswith('group')
+    out = []
+    for i in range(len(pairs)):
+        name = '{urn:t}%s%d' % ('G' if grp else 'T', i)
+        ob = (base_schema.maps.groups if grp else base_schema.maps.types)[name]
+        if any(c.errors for c in ob.iter_components()) or base_schema.maps.elements['{urn:t}e%d' % i].errors:
+            out.append('base-refused')
+            continue
+        comp = (schema.maps.groups if grp else schema.maps.types)[name]
+        bad, steps = False, 0
+        while comp is not None and steps < 4:
+            if any(c.errors for c in comp.iter_components()):
+                bad = True
+            comp = getattr(comp, 'redefine', None)
+            steps += 1
+        out.append('refused' if bad else 'accepted')
+    # errors that the library attaches to the schema documents rather than to a component refuse the whole pack
+    if any(e for sc in schema.maps.iter_schemas() for e in sc.errors):
+        named = [i for i in range(len(pairs)) if out[i] == 'accepted']
+        msgs = ' '.join(str(e) for sc in schema.maps.iter_schemas() for e in sc.errors)
+        for i in named:
+            if ('%s%d' % ('G' if grp else 'T', i)) in msgs:
+                out[i] = 'refused'
+    return schema, base_schema, out
+
+
+def judge_redef(schema, base_schema, i, version, form, base, derived, status, acc=None):
+    db, dr = regex.dfa_of(base, SIGMA), regex.dfa_of(derived, SIGMA)
+    w = regex.shortest_not_included(dr, db, SIGMA)
+    if acc is not None:
+        ps, pt = regex.product_size(dr, db, SIGMA)
+        acc.st(states=ps, transitions=pt)
+    included = w is None
+    label = 'redefine-%s:%s/%s' % (form, 'included' if included else 'not-included', status)
+    if status != 'accepted' or included:
+        return None, label
+    doc = M.instance('e%d' % i, w)
+    vr, vb = schema.is_valid(doc), base_schema.is_valid(doc)
+    if acc is not None:
+        acc.st(traces=2)
+    if vr and not vb:
+        ws = ''.join(w) or '-'
+        return (('C14 %s redefine:%s base=%s derived=%s witness=%s' % (version, form, M.show(base), M.show(derived), ws),
+                 'redefinition (%s) of %s by %s is accepted, but the child sequence %s is valid after the redefinition and invalid '
+                 'for the original component' % (form, M.show(base), M.show(derived), ws)), label + '/exhibited')
+    return None, label + '/not-exhibited(r=%s,b=%s)' % (vr, vb)
+
+
+def run_redef_shard(shard, acc):
+    tier, seed, name, si, kinds, version = shard
+    _, form, space = name.split(':')
+    _, n, occs, maxdev = [x for x in REDEF_SPACES if x[0] == space][0]
+    sliced = tier == 'quick' and space != 'M2-O8'
+    shape = list(M.shapes(n))[si]
+    batch = []
+
+    def flush():
+        if not batch:
+            return
+        with acc.guard(300):
+            schema, base_schema, status = build_redef(version, form, [(b, r) for _, b, r in batch])
+        acc.st(traces=len(batch))
+        for i, (ename, b, r) in enumerate(batch):
+            acc.ev()
+            with acc.guard(60):
+                d, label = judge_redef(schema, base_schema, i, version, form, b, r, status[i], acc)
+            acc.out(label)
+            if status[i] == 'accepted' or 'not-included' in label:
+                acc.nt('%s redefine:%s %s %s' % (version, form, M.show(b), M.show(r)))
+            if d:
+                acc.disc(d[0], d[1], {'version': version, 'redefine': form, 'base': model_to_json(b),
+                                      'derived': model_to_json(r), 'edit': ename})
+        del batch[:]
+
+    for base in M.models_of_shape(shape, occs, maxdev, kinds):
+        if sliced and not in_slice(version + form + M.show(base), seed, REDEF_SLICES):
+            continue
+        for ename, derived in edits.single_edits(base):
+            if '~' in M.show(derived):
+                continue                       # wildcard edits are covered by the plain restriction spaces
+            batch.append((ename, base, derived))
+            if len(batch) >= PACK:
+                flush()
+    flush()
+    _redef_cleanup()
 
 
 # --- attribute uses ----------------------------------------------------------------------------------
@@ -484,6 +642,14 @@ def replay(case):
                 version, b[0], b[1], b[2], r[0], r[1], r[2], ';'.join(bad[:4])), 'attribute sets %s' % bad)]
         return []
     base, derived = model_from_json(case['base']), model_from_json(case['derived'])
+    if case.get('redefine'):
+        try:
+            schema, base_schema, status = build_redef(version, case['redefine'], [(base, derived)])
+        except (XMLSchemaParseError, XMLSchemaModelError):
+            return []
+        d, _ = judge_redef(schema, base_schema, 0, version, case['redefine'], base, derived, status[0])
+        _redef_cleanup()
+        return [d] if d else []
     try:
         schema, status = build_pairs(version, [(base, derived)])
     except (XMLSchemaParseError, XMLSchemaModelError):
@@ -495,6 +661,8 @@ def replay(case):
 def bounds(tier, seed):
     return {'spaces': [{'name': s[0], 'nodes': s[1], 'occurrences': len(s[2]), 'max_nondefault': s[3],
                         'wildcard_leaf_variants': s[4], 'seed_slice_1_of_%d' % SLICES: s[5]} for s in spaces(tier)],
+            'redefine': 'forms type / group / type-chain / group-chain (xs:redefine over files c.xsd <- [b.xsd <-] a.xsd) x bases M2-O8 and M3-O5-D1 '
+                        '(quick: a seed-selected quarter of the latter) x every single edit without wildcards',
             'seqcho': '60 bases sequence(element, choice(element | wildcard)) in both orders x every single edit',
             'edits': 'every single edit of mc/gen/edits.py at every position',
             'facets': 'integer / string / decimal: every base facet set of size 1 (thorough: <= 2) x every derived facet set of size <= 2 x a value catalogue',
